@@ -243,3 +243,11 @@ def t10(ctx):
 
 
 RULES.append(t10)
+
+
+@rule("MC", doc="must-call census: no function of this property's files has gained an early exit in front of work it always did (every crate-local call that lay on all paths to a normal return in the reviewed tree still does)")
+def mc(ctx):
+    C.must_call_census(ctx, ctx.lib(), ['src/egraph/find.rs', 'src/egraph/union.rs', 'src/rewrite/mod.rs', 'src/egraph/mod.rs'])
+
+
+RULES.append(mc)
